@@ -21,6 +21,7 @@ from ..worlds import squeeth as S
 from ..ref import squeeth as Ref
 from ..ref.squeeth import F
 from .. import rng as R
+from .. import donors as DN
 
 ID = "C14"
 
@@ -232,6 +233,21 @@ def generate(seed: int, tier: str = "quick") -> dict:
         "assets": {"WETH": rw.choice(["30", "100", "1000"]), "OSQTH": rw.choice(["0", "40", "400", "4000"])},
         "quote": "USD", "prices": S.squeeth_price_columns(mw), "markets": markets,
     }
+    # resampled runs: the same history on 2- or 5-minute bars (squeeth frame and pool price resampled with 'first');
+    # the TWAP window stays seven minutes of time, i.e. 4 rows / 2 rows
+    k = rw.choice([1, 1, 1, 1, 1, 2, 5])
+    if k > 1 and n >= 3 * k:
+        world["interval"] = f"{k}min"
+        labels = DN.bar_times(world)
+        bar_of = {}
+        for b, t in enumerate(labels):
+            bar_of[t] = b
+        for o in program:
+            if o["bar"] >= 0:
+                ts = pd.Timestamp(world["start"]) + pd.Timedelta(minutes=o["bar"])
+                m_ = ts.hour * 60 + ts.minute
+                o["bar"] = bar_of[ts.normalize() + pd.Timedelta(minutes=(m_ // k) * k)]
+        faults.append({"kind": f"resampled_{k}min", "bar": 0})
     program.sort(key=lambda o: (o["bar"], ORDER.index(o["phase"])))
     return {"property": ID, "seed": seed, "world": world, "program": program, "faults": faults}
 
@@ -242,7 +258,12 @@ def _ref_of(sim) -> Ref.RefWorld:
     if ref is None:
         sq = next(m for m in sim.world["markets"] if m["kind"] == "squeeth")
         md = sim.mdata[sq["name"]]
-        ref = sim._c14_ref = Ref.RefWorld(md["mw"], md["pool_mw"])
+        k = DN.interval_minutes(sim.world)
+        firsts = None
+        if k > 1:
+            start = pd.Timestamp(sim.world["start"])
+            firsts = [DN.minute_of(sim.world, max(t, start)) for t in DN.bar_times(sim.world)]
+        ref = sim._c14_ref = Ref.RefWorld(md["mw"], md["pool_mw"], firsts, k)
     return ref
 
 
@@ -884,7 +905,7 @@ RULE = (
 BUDGET = {"quick": {"runs": 3000, "wall": 55}, "thorough": {"runs": 120000, "wall": 1100}}
 LEVEL = "exploration"
 ASSUMPTIONS = [
-    "1-minute bars only: the seven-minute window is the rows t-6min..t of the squeeth frame (at most 7 rows; fewer at the start of the data)",
+    "bars of 1, 2 or 5 minutes (the frame and the pool price resampled with 'first'): the seven-minute window is the rows with timestamp in [t-6min, t] of the (resampled) squeeth frame - at most 7, 4 or 2 rows, fewer at the start of the data",
     "three-valued verdicts: inside a relative band of 1e-9 around the 1.5x frontier, the 0.5 ETH floor and the half/full liquidation switch either answer is accepted (float log/pow in the TWAP)",
     "'must accept' is only demanded when every other precondition visibly holds (vault exists, wallet covers the amount with a 1e-5 margin, LP is in the pool, not lent, has liquidity)",
     "Asset.sub empties a wallet whose balance is within 1e-5 (relative) of the amount taken; such a debit is accepted as 'the stated amount'",
